@@ -117,7 +117,11 @@ class _BinaryOpAccumulatorNumpy(Accumulator):
         self.acc = self.__class__._operator(self.acc, obj)
 
     def _accumulate_other(self, other):
-        self.__class__._operator(self.acc, other.acc, out=self.acc)
+        if other.acc is not None:
+            if self.acc is None:
+                self.acc = np.array(other.acc)
+            else:
+                self.acc = self.__class__._operator(self.acc, other.acc)
         self._n += other._n
 
     @property
